@@ -111,8 +111,9 @@ class Subroutine(ProgramUnit):
 
         self._ast = None
 
-        # Re-register all encapulated member procedures
+        # Re-register all encapulated member procedures and update parentage
         for member in self.members:
+            member._reset_parent(self)
             self.symbol_attrs[member.name] = SymbolAttributes(ProcedureType(procedure=member))
 
         # Ensure that we are attaching all symbols to the newly create ``self``.
